@@ -24,6 +24,12 @@ package reclaimable
 // C07: "no ancestor of the reclaimer ends both above its own fair share and at least as saturated as the sibling it took from"
 //@ define satBad(ra real, rf real, sa real, sf real, m real) bool = !(rf == -1.0 && sf == -1.0) && ratio(ra, rf) > 1.0 && sf > 0.0 && ratio(ra, rf) * m >= ratio(sa, sf)
 
+// satU is satBad behind an uninterpreted symbol: callers of isFairShareSaturationLowerPerResource reason about the
+// saturation condition as an opaque predicate (the IEEE case analysis stays inside that one unit). Its defining
+// equation is the `assume` of isFairShareSaturationLowerPerResource (a definition of a fresh ghost symbol, not a
+// restriction on inputs).
+//@ declare satU(ra (float64), rf (float64), sa (float64), sf (float64), m (float64)) bool
+
 //@ func fairShareSaturationRatio
 //@   props C07
 //@   ieee
@@ -34,11 +40,13 @@ package reclaimable
 //@ func (*Reclaimable).isFairShareSaturationLowerPerResource
 //@   props C07
 //@   ieee
+//@   assume forall ra (float64), rf (float64), sa (float64), sf (float64), m (float64) :: satU(ra, rf, sa, sf, m) == satBad(ra, rf, sa, sf, m)
 //@   requires r != nil
 //@   pure
 //@   loop 1
 //@     invariant forall k in visited :: !satBad(reclaimerAllocated[k], reclaimerFair[k], siblingAlloc[k], siblingFair[k], r.saturationMultiplier)
-//@   ensures result == (forall k in involvedResources :: !satBad(reclaimerAllocated[k], reclaimerFair[k], siblingAlloc[k], siblingFair[k], r.saturationMultiplier))
+//@   lemma [saturation] result == (forall k in involvedResources :: !satBad(reclaimerAllocated[k], reclaimerFair[k], siblingAlloc[k], siblingFair[k], r.saturationMultiplier))
+//@   ensures result == (forall k in involvedResources :: !satU(reclaimerAllocated[k], reclaimerFair[k], siblingAlloc[k], siblingFair[k], r.saturationMultiplier))
 //@ end
 
 // ---- involved resource names ---------------------------------------------------------------
@@ -77,7 +85,7 @@ package reclaimable
 //@ define acyclic(queues map[common_info.QueueID]*rs.QueueAttributes) bool = forall k in queues :: rank(k) >= 0 && (queues[k].ParentQueue in queues ==> rank(queues[k].ParentQueue) < rank(k))
 // Ghost ancestor relation of the queue tree: anc(q, a) <=> a is q itself or an ancestor of q. It is
 // DEFINED by ancRoot+ancStep (on an acyclic map this recursion has exactly one solution, the reflexive-
-// transitive closure of "parent"); ancSelf/ancUp/ancIn are consequences by induction on rank that SMT
+// transitive closure of "parent"); ancSelf/ancUp/ancIn/ancSib (two different ancestors-or-self of one queue never have the same parent) are consequences by induction on rank that SMT
 // cannot derive and are therefore stated with the definition. The parent is a bound variable (p) so that
 // instantiating these facts never creates new anc() terms (no matching loops).
 //@ declare anc(q common_info.QueueID, a common_info.QueueID) bool
@@ -86,7 +94,8 @@ package reclaimable
 //@ define ancStep(queues map[common_info.QueueID]*rs.QueueAttributes) bool = forall q common_info.QueueID, p common_info.QueueID, a common_info.QueueID :: q in queues && p in queues && queues[q].ParentQueue == p ==> (anc(q, a) == (a == q || anc(p, a)))
 //@ define ancIn(queues map[common_info.QueueID]*rs.QueueAttributes) bool = forall q common_info.QueueID, a common_info.QueueID :: q in queues && anc(q, a) ==> a in queues && rank(a) <= rank(q)
 //@ define ancUp(queues map[common_info.QueueID]*rs.QueueAttributes) bool = forall q common_info.QueueID, a common_info.QueueID, p common_info.QueueID :: q in queues && anc(q, a) && p in queues && queues[a].ParentQueue == p ==> anc(q, p)
-//@ define treeOK(queues map[common_info.QueueID]*rs.QueueAttributes) bool = wfQueues(queues) && acyclic(queues) && ancSelf(queues) && ancRoot(queues) && ancStep(queues) && ancIn(queues) && ancUp(queues)
+//@ define ancSib(queues map[common_info.QueueID]*rs.QueueAttributes) bool = forall q common_info.QueueID, a common_info.QueueID, b common_info.QueueID :: q in queues && anc(q, a) && anc(q, b) && a != b ==> queues[a].ParentQueue != queues[b].ParentQueue
+//@ define treeOK(queues map[common_info.QueueID]*rs.QueueAttributes) bool = wfQueues(queues) && acyclic(queues) && ancSelf(queues) && ancRoot(queues) && ancStep(queues) && ancIn(queues) && ancUp(queues) && ancSib(queues)
 
 // C07 "taken at the hierarchy level where it diverges": the path is the parent chain of queueId,
 // root first: last element is queues[queueId], each element is followed by one of its children
@@ -182,4 +191,54 @@ package reclaimable
 //@   ensures [invKept] forall a common_info.QueueID :: old(a in involvedResourcesByQueue) ==> a in involvedResourcesByQueue && involvedResourcesByQueue[a] == old(involvedResourcesByQueue[a])
 //@   ensures [invNew] forall a common_info.QueueID :: a in involvedResourcesByQueue && !old(a in involvedResourcesByQueue) ==> fresh(involvedResourcesByQueue[a])
 //@   ensures [invFrame] forall m map[rs.ResourceName]any, k rs.ResourceName :: !fresh(m) && (forall a common_info.QueueID :: old(a in involvedResourcesByQueue) ==> old(involvedResourcesByQueue[a]) != m) ==> (k in m) == old(k in m)
+//@ end
+
+// ---- boundaries of the reclaiming queues ---------------------------------------------------------
+// every queue's two memoised quantity maps are coherent
+//@ define cachesOK(queues map[common_info.QueueID]*rs.QueueAttributes) bool = forall q in queues :: rs.cacheOK(queues[q]) && allocated(queues[q].lastFairShare) && allocated(queues[q].lastDeservedShare)
+// the memoised maps are not entries of the remaining-share map (so in-place Add/Sub on entries keeps them coherent)
+//@ define cachesApart(queues map[common_info.QueueID]*rs.QueueAttributes, rem map[common_info.QueueID]rs.ResourceQuantities) bool = forall q common_info.QueueID, a common_info.QueueID :: q in queues && a in rem ==> queues[q].lastFairShare != rem[a] && queues[q].lastDeservedShare != rem[a]
+//@ define onlyNames(m map[rs.ResourceName]any) bool = forall k in m :: k == "CPU" || k == "Memory" || k == "GPU"
+
+// share of queue q that the saturation test uses for the reclaiming side: its remaining share if it gave resources, else its allocation
+//@ define baseCpu(queues map[common_info.QueueID]*rs.QueueAttributes, rem map[common_info.QueueID]rs.ResourceQuantities, q common_info.QueueID) real = ite(q in rem, rem[q]["CPU"], queues[q].CPU.Allocated)
+//@ define baseMem(queues map[common_info.QueueID]*rs.QueueAttributes, rem map[common_info.QueueID]rs.ResourceQuantities, q common_info.QueueID) real = ite(q in rem, rem[q]["Memory"], queues[q].Memory.Allocated)
+//@ define baseGpu(queues map[common_info.QueueID]*rs.QueueAttributes, rem map[common_info.QueueID]rs.ResourceQuantities, q common_info.QueueID) real = ite(q in rem, rem[q]["GPU"], queues[q].GPU.Allocated)
+// s is a sibling of q (same parent, different queue) that gave resources
+//@ define sibOf(queues map[common_info.QueueID]*rs.QueueAttributes, rem map[common_info.QueueID]rs.ResourceQuantities, q common_info.QueueID, s common_info.QueueID) bool = s in rem && s != q && queues[s].ParentQueue == queues[q].ParentQueue
+// C07: "no ancestor of the reclaimer ends both above its own fair share and at least as saturated as the sibling it took from",
+// per resource that the reclaimer requests or that was taken under the sibling
+//@ define lvlCpu(queues map[common_info.QueueID]*rs.QueueAttributes, rem map[common_info.QueueID]rs.ResourceQuantities, inv map[common_info.QueueID]map[rs.ResourceName]any, r *Reclaimable, res *ri.Resource, q common_info.QueueID, s common_info.QueueID) bool = ("CPU" in inv[s] || res.milliCpu > 0.0) ==> !satU(baseCpu(queues, rem, q) + qCpu(res), queues[q].CPU.FairShare, rem[s]["CPU"], queues[s].CPU.FairShare, r.saturationMultiplier)
+//@ define lvlMem(queues map[common_info.QueueID]*rs.QueueAttributes, rem map[common_info.QueueID]rs.ResourceQuantities, inv map[common_info.QueueID]map[rs.ResourceName]any, r *Reclaimable, res *ri.Resource, q common_info.QueueID, s common_info.QueueID) bool = ("Memory" in inv[s] || res.memory > 0.0) ==> !satU(baseMem(queues, rem, q) + qMem(res), queues[q].Memory.FairShare, rem[s]["Memory"], queues[s].Memory.FairShare, r.saturationMultiplier)
+//@ define lvlGpu(queues map[common_info.QueueID]*rs.QueueAttributes, rem map[common_info.QueueID]rs.ResourceQuantities, inv map[common_info.QueueID]map[rs.ResourceName]any, r *Reclaimable, res *ri.Resource, q common_info.QueueID, s common_info.QueueID) bool = ("GPU" in inv[s] || res.gpus > 0.0) ==> !satU(baseGpu(queues, rem, q) + qGpu(res), queues[q].GPU.FairShare, rem[s]["GPU"], queues[s].GPU.FairShare, r.saturationMultiplier)
+//@ define lvlOK(queues map[common_info.QueueID]*rs.QueueAttributes, rem map[common_info.QueueID]rs.ResourceQuantities, inv map[common_info.QueueID]map[rs.ResourceName]any, r *Reclaimable, res *ri.Resource, q common_info.QueueID, s common_info.QueueID) bool = lvlCpu(queues, rem, inv, r, res, q, s) && lvlMem(queues, rem, inv, r, res, q, s) && lvlGpu(queues, rem, inv, r, res, q, s)
+
+//@ func (*Reclaimable).reclaimingQueuesRemainWithinBoundaries
+//@   props C07 C10
+//@   ieee
+//@   requires r != nil && reclaimer != nil && reclaimer.RequiredResources != nil
+//@   requires treeOK(queues) && cachesOK(queues)
+//@   requires remOK(remainingResourcesMap) && cachesApart(queues, remainingResourcesMap)
+//@   requires forall s in remainingResourcesMap :: s in queues && s in involvedResourcesByQueue && involvedResourcesByQueue[s] != nil && allocated(involvedResourcesByQueue[s]) && onlyNames(involvedResourcesByQueue[s])
+//@   modifies family(queues[reclaimer.Queue].lastFairShare), family(queues[reclaimer.Queue].lastDeservedShare), family(remainingResourcesMap[reclaimer.Queue][*])
+//@   loop 1
+//@     invariant found ==> reclaimingQueue != nil && reclaimingQueue.UID in queues && queues[reclaimingQueue.UID] == reclaimingQueue && anc(reclaimer.Queue, reclaimingQueue.UID) && reclaimer.Queue in queues
+//@     invariant requestedQuota != nil && requestedQuota["CPU"] == qCpu(reclaimer.RequiredResources) && requestedQuota["Memory"] == qMem(reclaimer.RequiredResources) && requestedQuota["GPU"] == qGpu(reclaimer.RequiredResources)
+//@     invariant reclaimerInvolvedResources != nil && ("CPU" in reclaimerInvolvedResources) == (reclaimer.RequiredResources.milliCpu > 0.0) && ("Memory" in reclaimerInvolvedResources) == (reclaimer.RequiredResources.memory > 0.0) && ("GPU" in reclaimerInvolvedResources) == (reclaimer.RequiredResources.gpus > 0.0) && onlyNames(reclaimerInvolvedResources)
+//@     invariant forall m map[rs.ResourceName]any, k rs.ResourceName :: !fresh(m) ==> (k in m) == old(k in m) && m[k] == old(m[k])
+//@     invariant cachesOK(queues)
+//@     invariant cachesApart(queues, remainingResourcesMap)
+//@     invariant forall a common_info.QueueID :: !(reclaimer.Queue in queues && anc(reclaimer.Queue, a) && !(found && anc(reclaimingQueue.UID, a))) ==> remainingResourcesMap[a]["CPU"] == old(remainingResourcesMap[a]["CPU"]) && remainingResourcesMap[a]["Memory"] == old(remainingResourcesMap[a]["Memory"]) && remainingResourcesMap[a]["GPU"] == old(remainingResourcesMap[a]["GPU"])
+//@     invariant forall q common_info.QueueID, s common_info.QueueID :: reclaimer.Queue in queues && anc(reclaimer.Queue, q) && !(found && anc(reclaimingQueue.UID, q)) && old(sibOf(queues, remainingResourcesMap, q, s)) ==> old(lvlOK(queues, remainingResourcesMap, involvedResourcesByQueue, r, reclaimer.RequiredResources, q, s))
+//@     invariant forall q common_info.QueueID :: reclaimer.Queue in queues && anc(reclaimer.Queue, q) && !(found && anc(reclaimingQueue.UID, q)) && !reclaimer.IsPreemptable ==> nonPreemptWithinDeserved(queues[q], reclaimer.RequiredResources)
+//@     decreases ite(found, rank(reclaimingQueue.UID) + 1, 0)
+//@   loop 2
+//@     invariant reclaimerInvolvedResources != nil && ("CPU" in reclaimerInvolvedResources) == (reclaimer.RequiredResources.milliCpu > 0.0) && ("Memory" in reclaimerInvolvedResources) == (reclaimer.RequiredResources.memory > 0.0) && ("GPU" in reclaimerInvolvedResources) == (reclaimer.RequiredResources.gpus > 0.0) && onlyNames(reclaimerInvolvedResources)
+//@     invariant forall m map[rs.ResourceName]any, k rs.ResourceName :: !fresh(m) ==> (k in m) == old(k in m) && m[k] == old(m[k])
+//@     invariant cachesOK(queues)
+//@     invariant cachesApart(queues, remainingResourcesMap)
+//@     invariant forall s in visited :: forall q common_info.QueueID :: q == reclaimingQueue.UID && old(sibOf(queues, remainingResourcesMap, q, s)) ==> old(lvlOK(queues, remainingResourcesMap, involvedResourcesByQueue, r, reclaimer.RequiredResources, q, s))
+//@   ensures [boundaries] result ==> (forall q common_info.QueueID, s common_info.QueueID :: reclaimer.Queue in queues && anc(reclaimer.Queue, q) && old(sibOf(queues, remainingResourcesMap, q, s)) ==> old(lvlOK(queues, remainingResourcesMap, involvedResourcesByQueue, r, reclaimer.RequiredResources, q, s)))
+//@   ensures [nonPreemptible] result && !reclaimer.IsPreemptable ==> (forall q common_info.QueueID :: reclaimer.Queue in queues && anc(reclaimer.Queue, q) ==> nonPreemptWithinDeserved(queues[q], reclaimer.RequiredResources))
+//@   ensures [complete] !result ==> !((forall q common_info.QueueID, s common_info.QueueID :: reclaimer.Queue in queues && anc(reclaimer.Queue, q) && old(sibOf(queues, remainingResourcesMap, q, s)) ==> old(lvlOK(queues, remainingResourcesMap, involvedResourcesByQueue, r, reclaimer.RequiredResources, q, s))) && (!reclaimer.IsPreemptable ==> (forall q common_info.QueueID :: reclaimer.Queue in queues && anc(reclaimer.Queue, q) ==> nonPreemptWithinDeserved(queues[q], reclaimer.RequiredResources))))
 //@ end
